@@ -1,4 +1,6 @@
 """C02 -- set-similarity joins return only qualifying pairs, once, with the true score."""
+from hypothesis import strategies as st
+
 from .. import calls, canon, enumgen, gen, oracle
 from ..env import JOINS, mk_tok
 from ..runner import Component
@@ -352,4 +354,141 @@ class Bundled(Component):
         ctx.label("bundled:%s:%s" % (m, attr))
 
 
-COMPONENTS = [Random(), E1Sound(), Dense(), Bundled()]
+def large_tables(seed, nl, nr, vocab, maxtok, kind="tokens"):
+    """Deterministic larger tables from a Hypothesis-drawn seed: Zipf-skewed vocabulary,
+    clusters of near-duplicate rows, big integer keys, non-default index labels."""
+    import random
+
+    import pandas as pd
+    rnd = random.Random(seed)
+    words = ["w%d" % i for i in range(vocab)]
+    weights = [1.0 / (i + 1) for i in range(vocab)]
+    nbase = max(2, (nl + nr) // 6)
+    bases = [rnd.choices(words, weights, k=rnd.randint(1, maxtok)) for _ in range(nbase)]
+
+    def row():
+        r = rnd.random()
+        if r < 0.03:
+            return ""
+        if r < 0.06:
+            return None
+        toks = list(rnd.choice(bases))
+        for _ in range(rnd.randint(0, 3)):
+            op = rnd.randint(0, 2)
+            if op == 0 and toks:
+                toks.pop(rnd.randrange(len(toks)))
+            elif op == 1:
+                toks.insert(rnd.randint(0, len(toks)), rnd.choices(words, weights)[0])
+            elif toks:
+                toks[rnd.randrange(len(toks))] = rnd.choices(words, weights)[0]
+        return " ".join(toks)
+
+    lv = [row() for _ in range(nl)]
+    rv = [row() for _ in range(nr)]
+    L = pd.DataFrame({"extra": [i % 7 for i in range(nl)],
+                      "key": [10 ** 12 + 7919 * i for i in range(nl)],
+                      "val": pd.Series(lv, dtype=object)})
+    L.index = pd.Index([(i * 37) % (nl + 3) for i in range(nl)])
+    R = pd.DataFrame({"val": pd.Series(rv, dtype=object),
+                      "key": pd.Series(["r%06d" % (nr - i) for i in range(nr)], dtype=object)})
+    R.index = pd.Index(["x%d" % (i // 2) for i in range(nr)])
+    return L, R, lv, rv
+
+
+@st.composite
+def large_case(draw, tier):
+    big = tier == "thorough"
+    return {"seed": draw(st.integers(0, 2 ** 32 - 1)),
+            "nl": draw(st.integers(40, 400 if big else 160)),
+            "nr": draw(st.integers(40, 400 if big else 160)),
+            "vocab": draw(st.sampled_from([30, 120, 600])),
+            "maxtok": draw(st.sampled_from([6, 25, 60])),
+            "measure": draw(st.sampled_from(gen.SET_JOIN_MEASURES)),
+            "tgrid": draw(st.integers(1, 100)),
+            "op": draw(st.sampled_from([">=", ">=", ">", "="])),
+            "allow_missing": draw(st.booleans()),
+            "n_jobs": draw(st.sampled_from([1, 1, 4, 16, -1])),
+            "attrs": draw(st.booleans())}
+
+
+class Large(Component):
+    """Larger synthetic tables (40-400 rows, up to 60 tokens per value, up to 600 distinct
+    tokens, Zipf frequencies, near-duplicate clusters) against the brute-force model:
+    completeness, soundness, uniqueness, scores."""
+    name = "large"
+    kind = "hyp"
+    rule = "'must' set non-empty and a token-sharing pair outside 'may'"
+
+    def examples(self, tier):
+        return 20 if tier == "quick" else 80
+
+    def strategy(self, tier):
+        return large_case(tier)
+
+    def check(self, case, ctx):
+        L, R, lv, rv = large_tables(case["seed"], case["nl"], case["nr"], case["vocab"],
+                                    case["maxtok"])
+        m, op = case["measure"], case["op"]
+        t = max(1, case["tgrid"] // 12) if m == "OVERLAP" else case["tgrid"] / 100.0
+        tok = mk_tok({"kind": "ws", "return_set": True})
+        la = ["extra"] if case["attrs"] else None
+        with calls.backend(case["n_jobs"]):
+            if m == "OVERLAP":
+                df = ctx.lib(JOINS[m], L, R, "key", "key", "val", "val", tok, t, op,
+                             case["allow_missing"], la, None, "l_", "r_", True, case["n_jobs"],
+                             False)
+            else:
+                df = ctx.lib(JOINS[m], L, R, "key", "key", "val", "val", tok, t, op, True,
+                             case["allow_missing"], la, None, "l_", "r_", True, case["n_jobs"],
+                             False)
+        if df is None:
+            return
+        lk, rk = L["key"].tolist(), R["key"].tolist()
+        ls = [None if v is None else frozenset(v.split()) for v in lv]
+        rs = [None if v is None else frozenset(v.split()) for v in rv]
+        got = {}
+        for i, j, sc in zip(df["l_key"].tolist(), df["r_key"].tolist(),
+                            df["_sim_score"].tolist()):
+            got[(i, j)] = got.get((i, j), []) + [sc]
+        who = "%s_join threshold=%r op=%s n_jobs=%d on %dx%d synthetic rows (seed %d)" % (
+            m.lower(), t, op, case["n_jobs"], case["nl"], case["nr"], case["seed"])
+        nmust = nshare_no = 0
+        for i, x in enumerate(ls):
+            for j, y in enumerate(rs):
+                k = (lk[i], rk[j])
+                scs = got.get(k)
+                if x is None or y is None:
+                    if scs is not None and not case["allow_missing"]:
+                        ctx.violation("join=%s,kind=missing-row-returned" % m,
+                                      "%s returned %r which has a missing value" % (who, k))
+                    continue
+                if scs is not None and len(scs) > 1:
+                    ctx.violation("join=%s,kind=duplicate-pair" % m, "%s returned %r %d times"
+                                  % (who, k, len(scs)))
+                if not x and not y:
+                    continue
+                o = len(x & y)
+                cl = "no" if (not x or not y) else oracle.classify(m, len(x), len(y), o, t, op)
+                if scs is not None:
+                    if cl == "no":
+                        ctx.violation("join=%s,kind=non-qualifying-pair-returned" % m,
+                                      "%s returned %r with sizes/overlap %r"
+                                      % (who, k, (len(x), len(y), o)))
+                    elif not oracle.score_ok(m, len(x), len(y), o, scs[0]):
+                        ctx.violation("join=%s,kind=wrong-score" % m,
+                                      "%s: %r scored %r, sizes/overlap %r"
+                                      % (who, k, scs[0], (len(x), len(y), o)))
+                elif cl == "must":
+                    ctx.violation("join=%s,kind=qualifying-pair-missing" % m,
+                                  "%s does not return %r with sizes/overlap %r"
+                                  % (who, k, (len(x), len(y), o)))
+                if cl == "must":
+                    nmust += 1
+                elif cl == "no" and o > 0:
+                    nshare_no += 1
+        ctx.nontrivial(nmust > 0 and nshare_no > 0)
+        ctx.label("large:" + m)
+        ctx.label("large:n_jobs>1", case["n_jobs"] != 1)
+
+
+COMPONENTS = [Random(), E1Sound(), Dense(), Bundled(), Large()]
